@@ -84,7 +84,9 @@ Qed.
 Lemma pc_eqb_eq a b : pc_eqb a b = true <-> a = b.
 Proof.
   destruct a, b; cbn [pc_eqb]; try (split; [discriminate|congruence]); try tauto;
-    rewrite Nat.eqb_eq; split; congruence.
+    rewrite ?andb_true_iff, !Nat.eqb_eq; split; try congruence.
+  - intros [-> ->]. reflexivity.
+  - intros H. injection H as -> ->. auto.
 Qed.
 
 Lemma pc_eqb_refl a : pc_eqb a a = true.
@@ -151,7 +153,7 @@ Proof.
                                           | PWin h | PWait h | PIns h | PHold h | PDrop h => h =? g
                                           | _ => false end).
   { intros g. unfold holds. destruct (tpc t); reflexivity. }
-  assert (Hs : forall g, at_send g t = pc_eqb (tpc t) (PSend g)) by reflexivity.
+  assert (Hs : forall g, at_send g t = pc_eqb (tpc t) (PSend g) || pc_eqb (tpc t) (PDec g 1)) by reflexivity.
   destruct (tpc t) eqn:E.
   - (* PStream *)
     assert (Hslow : Inv {| ctr := ctr s; zeros := zeros s; cur := cur s; rlock := rlock s; mbox := mbox s; sess := sess s;
@@ -160,7 +162,7 @@ Proof.
       - pose proof (cnt_set_nth (holds true g) (thr s) i t (set_pc_path t PSlow 2) Hn) as HC.
         rewrite Hh in HC. unfold holds at 3 in HC. cbn [set_pc_path tpc b2n] in HC. rewrite Hcnt. lia.
       - pose proof (cnt_set_nth (at_send g) (thr s) i t (set_pc_path t PSlow 2) Hn) as HC.
-        rewrite Hs in HC. unfold at_send at 3 in HC. cbn [set_pc_path tpc pc_eqb b2n] in HC. rewrite <- Hun. lia. }
+        rewrite Hs in HC. unfold at_send at 3 in HC. cbn [set_pc_path tpc pc_eqb orb b2n] in HC. rewrite <- Hun. lia. }
     destruct (cur s) as [g0|]; [|injection Hstep as <-; exact Hslow].
     destruct (1 <=? get (ctr s) g0) eqn:Ege; [|injection Hstep as <-; exact Hslow].
     injection Hstep as <-. apply Nat.leb_le in Ege. pose proof (get_pos_lt _ _ Ege) as Hlt.
@@ -177,7 +179,7 @@ Proof.
       apply andb_true_iff in Eg. destruct Eg as [Eg _]. apply Nat.eqb_eq in Eg. subst g.
       specialize (Hz0 g0 H). lia.
     + pose proof (cnt_set_nth (at_send g) (thr s) i t (set_pc_path t (PWin g0) 1) Hn) as HC.
-      rewrite Hs in HC. unfold at_send at 3 in HC. cbn [set_pc_path tpc pc_eqb b2n] in HC. rewrite <- Hun. lia.
+      rewrite Hs in HC. unfold at_send at 3 in HC. cbn [set_pc_path tpc pc_eqb orb b2n] in HC. rewrite <- Hun. lia.
     + rewrite length_set_nth in H. specialize (Hlive g H). rewrite get_set_nth.
       destruct ((g =? g0) && (g0 <? length (ctr s))); lia.
   - (* PWin *)
@@ -188,7 +190,7 @@ Proof.
       rewrite Hcnt. unfold after_stream. destruct (tdrop t); cbn [tpc] in HC; lia.
     + pose proof (cnt_set_nth (at_send g0) (thr s) i t (set_pc t (after_stream t g)) Hn) as HC.
       rewrite Hs in HC. unfold at_send at 3, after_stream in HC. cbn [set_pc tpc] in HC.
-      rewrite <- Hun. unfold after_stream. destruct (tdrop t); cbn [tpc pc_eqb b2n] in HC; lia.
+      rewrite <- Hun. unfold after_stream. destruct (tdrop t); cbn [tpc pc_eqb orb b2n] in HC; lia.
   - (* PSlow *)
     injection Hstep as <-.
     assert (Hn0 : get (ctr s) (length (ctr s)) = 0) by (apply get_overflow; lia).
@@ -204,7 +206,7 @@ Proof.
     + rewrite get_snoc in H. rewrite get_snoc. rewrite Hlen in H.
       destruct (g =? length (ctr s)); [discriminate|apply Hz0; exact H].
     + pose proof (cnt_set_nth (at_send g) (thr s) i t (set_pc t (PWait (length (ctr s)))) Hn) as HC.
-      rewrite Hs in HC. unfold at_send at 3 in HC. cbn [set_pc tpc pc_eqb b2n] in HC.
+      rewrite Hs in HC. unfold at_send at 3 in HC. cbn [set_pc tpc pc_eqb orb b2n] in HC.
       rewrite app_assoc, count_msg_app. cbn [count_msg]. rewrite get_snoc, Hlen.
       destruct (g =? length (ctr s)) eqn:Eg.
       * apply Nat.eqb_eq in Eg. subst g. specialize (Hun (length (ctr s))). lia.
@@ -220,7 +222,7 @@ Proof.
       rewrite Hcnt. unfold after_stream. destruct (tdrop t); cbn [tpc] in HC; lia.
     + pose proof (cnt_set_nth (at_send g0) (thr s) i t (set_pc t (after_stream t g)) Hn) as HC.
       rewrite Hs in HC. unfold at_send at 3, after_stream in HC. cbn [set_pc tpc] in HC.
-      rewrite <- Hun. unfold after_stream. destruct (tdrop t); cbn [tpc pc_eqb b2n] in HC; lia.
+      rewrite <- Hun. unfold after_stream. destruct (tdrop t); cbn [tpc pc_eqb orb b2n] in HC; lia.
   - discriminate.
   - (* PDrop *)
     injection Hstep as <-.
@@ -233,11 +235,10 @@ Proof.
       specialize (Hz0 g Ez). lia. }
     constructor; cbn [ctr zeros thr log mbox]; intros.
     + rewrite length_set_nth. destruct (get (ctr s) g =? 1); [rewrite length_set_nth|]; exact Hlen.
-    + pose proof (cnt_set_nth (holds true g0) (thr s) i t (set_pc t (if get (ctr s) g =? 1 then PSend g else PDone)) Hn) as HC.
-      rewrite Hh in HC. unfold holds at 3 in HC. cbn [set_pc tpc] in HC.
-      assert (HC' : cnt (holds true g0) (set_nth (thr s) i (set_pc t (if get (ctr s) g =? 1 then PSend g else PDone))) + b2n (g =? g0)
-                    = cnt (holds true g0) (thr s)).
-      { destruct (get (ctr s) g =? 1); cbn [b2n] in HC; lia. }
+    + pose proof (cnt_set_nth (holds true g0) (thr s) i t (set_pc t (PDec g (get (ctr s) g))) Hn) as HC.
+      rewrite Hh in HC. unfold holds at 3 in HC. cbn [set_pc tpc b2n] in HC.
+      assert (HC' : cnt (holds true g0) (set_nth (thr s) i (set_pc t (PDec g (get (ctr s) g)))) + b2n (g =? g0)
+                    = cnt (holds true g0) (thr s)) by lia.
       rewrite get_set_nth, Hltb, andb_true_r, (Nat.eqb_sym g0 g).
       destruct (g =? g0) eqn:Eg; cbn [b2n] in HC'.
       * apply Nat.eqb_eq in Eg. subst g0. pose proof (Hcnt g). lia.
@@ -252,29 +253,38 @@ Proof.
         -- specialize (Hz0 g H). lia.
       * destruct (get (ctr s) g =? 1) eqn:E1; [|apply Hz0; exact H].
         rewrite get_set_nth, Eg in H. cbn [andb] in H. apply Hz0; exact H.
-    + pose proof (cnt_set_nth (at_send g0) (thr s) i t (set_pc t (if get (ctr s) g =? 1 then PSend g else PDone)) Hn) as HC.
-      rewrite Hs in HC. unfold at_send at 3 in HC. cbn [set_pc tpc pc_eqb b2n] in HC.
+    + pose proof (cnt_set_nth (at_send g0) (thr s) i t (set_pc t (PDec g (get (ctr s) g))) Hn) as HC.
+      rewrite Hs in HC. unfold at_send at 3 in HC. cbn [set_pc tpc pc_eqb orb b2n] in HC.
       destruct (get (ctr s) g =? 1) eqn:E1.
-      * apply Nat.eqb_eq in E1. cbn [pc_eqb] in HC. rewrite get_set_nth, Hzlt, andb_true_r, (Nat.eqb_sym g0 g).
+      * apply Nat.eqb_eq in E1. rewrite andb_true_r in HC. rewrite get_set_nth, Hzlt, andb_true_r, (Nat.eqb_sym g0 g).
         destruct (g =? g0) eqn:Eg; cbn [b2n] in HC.
         -- apply Nat.eqb_eq in Eg. subst g0. specialize (Hun g). rewrite (Hzg E1) in *. lia.
         -- specialize (Hun g0). lia.
-      * cbn [pc_eqb b2n] in HC. specialize (Hun g0). lia.
+      * rewrite andb_false_r in HC. cbn [b2n] in HC. specialize (Hun g0). lia.
     + rewrite length_set_nth in H. specialize (Hlive g0 H).
       rewrite get_set_nth, Hltb, andb_true_r. destruct (g0 =? g) eqn:Eg.
       * apply Nat.eqb_eq in Eg. subst g0. destruct (get (ctr s) g =? 1) eqn:E1.
         -- rewrite get_set_nth, Nat.eqb_refl, Hzlt. cbn [andb]. lia.
         -- apply Nat.eqb_neq in E1. lia.
       * destruct (get (ctr s) g =? 1); [rewrite get_set_nth, Eg; cbn [andb]|]; exact Hlive.
+  - (* PDec: the decision on the remembered previous value; no shared state is touched *)
+    injection Hstep as <-.
+    constructor; cbn [ctr zeros thr log mbox]; auto; intros g0.
+    + pose proof (cnt_set_nth (holds true g0) (thr s) i t (set_pc t (if p =? 1 then PSend g else PDone)) Hn) as HC.
+      rewrite Hh in HC. unfold holds at 3 in HC. cbn [set_pc tpc] in HC. rewrite Hcnt.
+      destruct (p =? 1); cbn [b2n] in HC; lia.
+    + pose proof (cnt_set_nth (at_send g0) (thr s) i t (set_pc t (if p =? 1 then PSend g else PDone)) Hn) as HC.
+      rewrite Hs in HC. unfold at_send at 3 in HC. cbn [set_pc tpc pc_eqb] in HC. rewrite <- Hun.
+      destruct (p =? 1); cbn [pc_eqb] in HC; destruct (g =? g0); cbn [orb andb b2n] in HC; lia.
   - (* PSend *)
     injection Hstep as <-.
     constructor; cbn [ctr zeros thr log mbox]; auto; intros g0.
     + pose proof (cnt_set_nth (holds true g0) (thr s) i t (set_pc t PDone) Hn) as HC.
       rewrite Hh in HC. unfold holds at 3 in HC. cbn [set_pc tpc b2n] in HC. rewrite Hcnt. lia.
     + pose proof (cnt_set_nth (at_send g0) (thr s) i t (set_pc t PDone) Hn) as HC.
-      rewrite Hs in HC. unfold at_send at 3 in HC. cbn [set_pc tpc pc_eqb b2n] in HC.
+      rewrite Hs in HC. unfold at_send at 3 in HC. cbn [set_pc tpc pc_eqb orb b2n] in HC.
       rewrite app_assoc, count_msg_app. cbn [count_msg]. specialize (Hun g0).
-      rewrite (Nat.eqb_sym g0 g). destruct (g =? g0); cbn [b2n] in HC; lia.
+      rewrite (Nat.eqb_sym g0 g). destruct (g =? g0); cbn [orb b2n] in HC; lia.
   - discriminate.
 Qed.
 
@@ -423,25 +433,32 @@ Proof.
   intros HI [Hfin Hhist Hsess Hdead] Hov Hstep.
   pose proof HI as [Hlen Hcnt Hz1 Hz0 Hun Hlive].
   unfold tstep in Hstep. destruct (nth_error (thr s) i) as [t|] eqn:Hn; [|discriminate].
-  assert (Hs : forall g, at_send g t = pc_eqb (tpc t) (PSend g)) by reflexivity.
+  assert (Hs : forall g, at_send g t = pc_eqb (tpc t) (PSend g) || pc_eqb (tpc t) (PDec g 1)) by reflexivity.
   assert (Hh : forall g, holds true g t = match tpc t with
                                           | PWin h | PWait h | PIns h | PHold h | PDrop h => h =? g
                                           | _ => false end).
   { intros g. unfold holds. destruct (tpc t); reflexivity. }
   (* steps that change neither zeros, nor the mailbox, nor who sits at PSend, nor the length of ctr *)
+  assert (Hquiet' : forall c' cur' rl' t',
+             (forall g, at_send g t' = at_send g t) ->
+             length c' = length (ctr s) ->
+             (forall g, S g < length (ctr s) -> get c' g = 0) ->
+             SeqInv {| ctr := c'; zeros := zeros s; cur := cur'; rlock := rl'; mbox := mbox s; sess := sess s;
+                       dead := dead s; log := log s; thr := set_nth (thr s) i t' |}).
+  { intros c' cur' rl' t' Ht' Hl Hc.
+    assert (Hsend : forall g, cnt (at_send g) (set_nth (thr s) i t') = cnt (at_send g) (thr s)).
+    { intros g. pose proof (cnt_set_nth (at_send g) (thr s) i t t' Hn) as HC. rewrite Ht' in HC. lia. }
+    constructor; cbn [ctr zeros thr log mbox sess dead]; auto.
+    - intros g Hg. rewrite Hl in Hg. apply unfinished_false. cbn [ctr thr]. rewrite Hsend.
+      specialize (Hfin g Hg). apply unfinished_false in Hfin. split; [apply Hc; exact Hg|apply Hfin].
+    - rewrite Hhist. symmetry. apply hist_same; cbn [ctr]; [exact Hl|]. intros g. apply sent_same; cbn [zeros thr]; auto. }
   assert (Hquiet : forall c' cur' rl' t',
              (forall g, at_send g t' = false) -> (forall g, at_send g t = false) ->
              length c' = length (ctr s) ->
              (forall g, S g < length (ctr s) -> get c' g = 0) ->
              SeqInv {| ctr := c'; zeros := zeros s; cur := cur'; rlock := rl'; mbox := mbox s; sess := sess s;
                        dead := dead s; log := log s; thr := set_nth (thr s) i t' |}).
-  { intros c' cur' rl' t' Ht' Ht Hl Hc.
-    assert (Hsend : forall g, cnt (at_send g) (set_nth (thr s) i t') = cnt (at_send g) (thr s)).
-    { intros g. pose proof (cnt_set_nth (at_send g) (thr s) i t t' Hn) as HC. rewrite Ht, Ht' in HC. cbn [b2n] in HC. lia. }
-    constructor; cbn [ctr zeros thr log mbox sess dead]; auto.
-    - intros g Hg. rewrite Hl in Hg. apply unfinished_false. cbn [ctr thr]. rewrite Hsend.
-      specialize (Hfin g Hg). apply unfinished_false in Hfin. split; [apply Hc; exact Hg|apply Hfin].
-    - rewrite Hhist. symmetry. apply hist_same; cbn [ctr]; [exact Hl|]. intros g. apply sent_same; cbn [zeros thr]; auto. }
+  { intros c' cur' rl' t' Ht' Ht Hl Hc. apply Hquiet'; auto. intros g. rewrite Ht, Ht'. reflexivity. }
   destruct (tpc t) eqn:E.
   - (* PStream *)
     assert (Hns : forall g, at_send g t = false) by (intros; rewrite Hs; reflexivity).
@@ -468,7 +485,7 @@ Proof.
     pose proof (overlap_false_finished s i t Hn E Hov) as Hallfin.
     assert (Hsend : forall g, cnt (at_send g) (set_nth (thr s) i (set_pc t (PWait (length (ctr s))))) = cnt (at_send g) (thr s)).
     { intros g. pose proof (cnt_set_nth (at_send g) (thr s) i t (set_pc t (PWait (length (ctr s)))) Hn) as HC.
-      rewrite Hs in HC. unfold at_send at 3 in HC. cbn [set_pc tpc pc_eqb b2n] in HC. lia. }
+      rewrite Hs in HC. unfold at_send at 3 in HC. cbn [set_pc tpc pc_eqb orb b2n] in HC. lia. }
     constructor; cbn [ctr zeros thr log mbox sess dead]; auto.
     + intros g Hg. rewrite app_length in Hg. cbn [length] in Hg. apply unfinished_false. cbn [ctr thr].
       rewrite Hsend, get_snoc. assert (Hg' : g < length (ctr s)) by lia.
@@ -496,11 +513,11 @@ Proof.
     assert (Hzg : get (ctr s) g = 1 -> get (zeros s) g = 0).
     { intros H1. pose proof (Hz1 g) as Hle. destruct (Nat.eq_dec (get (zeros s) g) 1) as [Ez|Ez]; [|lia].
       specialize (Hz0 g Ez). lia. }
-    assert (Hsend : forall g0, cnt (at_send g0) (set_nth (thr s) i (set_pc t (if get (ctr s) g =? 1 then PSend g else PDone)))
+    assert (Hsend : forall g0, cnt (at_send g0) (set_nth (thr s) i (set_pc t (PDec g (get (ctr s) g))))
                                = cnt (at_send g0) (thr s) + b2n ((get (ctr s) g =? 1) && (g =? g0))).
-    { intros g0. pose proof (cnt_set_nth (at_send g0) (thr s) i t (set_pc t (if get (ctr s) g =? 1 then PSend g else PDone)) Hn) as HC.
-      rewrite Hs in HC. unfold at_send at 3 in HC. cbn [set_pc tpc pc_eqb b2n] in HC.
-      destruct (get (ctr s) g =? 1); cbn [pc_eqb andb b2n] in *; lia. }
+    { intros g0. pose proof (cnt_set_nth (at_send g0) (thr s) i t (set_pc t (PDec g (get (ctr s) g))) Hn) as HC.
+      rewrite Hs in HC. unfold at_send at 3 in HC. cbn [set_pc tpc pc_eqb orb b2n] in HC.
+      rewrite (andb_comm (get (ctr s) g =? 1)). lia. }
     constructor; cbn [ctr zeros thr log mbox sess dead]; auto.
     + intros g0 Hg. rewrite length_set_nth in Hg. apply unfinished_false. cbn [ctr thr].
       specialize (Hfin g0 Hg). apply unfinished_false in Hfin. destruct Hfin as [Hc0 Hs0].
@@ -517,10 +534,16 @@ Proof.
            rewrite andb_false_r. reflexivity.
         -- cbn [andb]. replace (g =? g0) with false by (symmetry; apply Nat.eqb_neq; lia). cbn [b2n]. rewrite Nat.add_0_r. reflexivity.
       * cbn [b2n]. rewrite Nat.add_0_r. reflexivity.
+  - (* PDec: thread-local decision *)
+    injection Hstep as <-. apply Hquiet'.
+    + intros g0. rewrite Hs. unfold at_send, set_pc. cbn [tpc pc_eqb].
+      destruct (p =? 1); cbn [pc_eqb]; destruct (g =? g0); reflexivity.
+    + reflexivity.
+    + intros g0 Hg. specialize (Hfin g0 Hg). apply unfinished_false in Hfin. apply Hfin.
   - (* PSend: the owed Unsubscribe of the newest generation is sent *)
     injection Hstep as <-.
     assert (Hat : 1 <= cnt (at_send g) (thr s)).
-    { apply (cnt_pos _ _ i t Hn). rewrite Hs. apply pc_eqb_refl. }
+    { apply (cnt_pos _ _ i t Hn). rewrite Hs, pc_eqb_refl. reflexivity. }
     assert (Hzg : get (zeros s) g = 1 /\ cnt (at_send g) (thr s) = 1 /\ count_msg (MUnsub g) (log s ++ mbox s) = 0).
     { specialize (Hun g). specialize (Hz1 g). lia. }
     destruct Hzg as [Hzg [Hat1 _]].
@@ -531,7 +554,7 @@ Proof.
       assert (Hg : S g < length (ctr s)) by lia. specialize (Hfin g Hg). apply unfinished_false in Hfin. lia. }
     assert (Hsend : forall g0, cnt (at_send g0) (set_nth (thr s) i (set_pc t PDone)) + b2n (g =? g0) = cnt (at_send g0) (thr s)).
     { intros g0. pose proof (cnt_set_nth (at_send g0) (thr s) i t (set_pc t PDone) Hn) as HC.
-      rewrite Hs in HC. unfold at_send at 3 in HC. cbn [set_pc tpc pc_eqb b2n] in HC. lia. }
+      rewrite Hs in HC. unfold at_send at 3 in HC. cbn [set_pc tpc pc_eqb orb b2n] in HC. rewrite orb_false_r in HC. lia. }
     constructor; cbn [ctr zeros thr log mbox sess dead]; auto.
     + intros g0 Hg. apply unfinished_false. cbn [ctr thr]. specialize (Hfin g0 Hg). apply unfinished_false in Hfin.
       specialize (Hsend g0). lia.
@@ -728,7 +751,7 @@ Qed.
 (** thread 0: stream() then drop; thread 1: stream() and keep.
     T0 subscribes alone; T1 passes has_subscriptions(); T0 drops the last reference and sends
     Unsubscribe; T1 clones; the manager leaves the overlay. *)
-Definition toctou_trace : list label := [LT 0; LT 0; LM; LT 0; LT 1; LT 0; LT 0; LT 1; LM].
+Definition toctou_trace : list label := [LT 0; LT 0; LM; LT 0; LT 1; LT 0; LT 0; LT 0; LT 1; LM].
 
 (** as-is (check-then-act): a kept handle whose session was stopped, with no overlapping
     subscription anywhere in the trace *)
@@ -744,12 +767,12 @@ Qed.
 
 (** ... and when that handle is dropped later, a second Unsubscribe for the same generation *)
 Lemma asis_double_unsubscribe :
-  exists s, run_strict false (init [true; true]) (toctou_trace ++ [LT 1; LT 1]) = Some s /\
+  exists s, run_strict false (init [true; true]) (toctou_trace ++ [LT 1; LT 1; LT 1]) = Some s /\
             count_msg (MUnsub 0) (log s ++ mbox s) = 2.
 Proof. eexists. split; vm_compute; reflexivity. Qed.
 
 (** the same trace on the repaired protocol keeps the handle backed *)
-Definition fixed_window_trace : list label := [LT 0; LT 0; LM; LT 0; LT 1; LT 0; LT 1].
+Definition fixed_window_trace : list label := [LT 0; LT 0; LM; LT 0; LT 1; LT 0; LT 0; LT 1].
 
 Lemma fixed_toctou_fine :
   exists s, run_strict true (init [true; false]) fixed_window_trace = Some s /\
@@ -764,7 +787,7 @@ Qed.
 (** Open finding 1 (also in the repaired protocol): a drop is preempted between fetch_sub and
     send_message; meanwhile another stream() re-subscribes; the late Unsubscribe then stops the
     NEW session. *)
-Definition late_unsub_trace : list label := [LT 0; LT 0; LM; LT 0; LT 0; LT 1; LT 1; LM; LT 1; LT 0; LM].
+Definition late_unsub_trace : list label := [LT 0; LT 0; LM; LT 0; LT 0; LT 0; LT 1; LT 1; LM; LT 1; LT 0; LM].
 
 Lemma late_unsubscribe_refuted :
   exists s, run_strict true (init [true; false]) late_unsub_trace = Some s /\ ~ handles_backed s.
@@ -776,7 +799,7 @@ Qed.
 
 (** Open finding 2: two stream() calls for a topic without a live subscription run their slow
     paths concurrently; both subscribe; dropping the first handle stops the second session. *)
-Definition concurrent_sub_trace : list label := [LT 0; LT 1; LT 0; LT 1; LM; LM; LT 0; LT 1; LT 0; LT 0; LM].
+Definition concurrent_sub_trace : list label := [LT 0; LT 1; LT 0; LT 1; LM; LM; LT 0; LT 1; LT 0; LT 0; LT 0; LM].
 
 Lemma concurrent_subscribe_refuted :
   exists s, run_strict true (init [true; false]) concurrent_sub_trace = Some s /\ ~ handles_backed s.
@@ -790,6 +813,20 @@ Lemma open_findings_are_overlaps :
   no_overlap true (init [true; false]) late_unsub_trace = false /\
   no_overlap true (init [true; false]) concurrent_sub_trace = false.
 Proof. split; vm_compute; reflexivity. Qed.
+
+(** Regression witness (seeded change "decide from a second read of the counter"): if the
+    decision of [drop] re-read the shared counter instead of using the value its own fetch_sub
+    returned, the last two references dropped concurrently (both decrements before either
+    decision) would BOTH send Unsubscribe for one single 1 -> 0 transition.  The code as it is
+    (decision on the thread-local previous value) sends exactly one on the same schedule. *)
+Definition two_last_drops_trace : list label :=
+  [LT 0; LT 0; LM; LT 0; LT 1; LT 1; LT 0; LT 1; LT 0; LT 1; LT 0; LT 1].
+
+Lemma reread_after_decrement_refuted :
+  (exists s, run_strict_reread (init [true; true]) two_last_drops_trace = Some s /\
+             get (zeros s) 0 = 1 /\ count_msg (MUnsub 0) (log s ++ mbox s) = 2) /\
+  count_msg (MUnsub 0) (log (run_case true [true; true] two_last_drops_trace)) = 1.
+Proof. split; [eexists; split; [vm_compute; reflexivity|split; vm_compute; reflexivity]|vm_compute; reflexivity]. Qed.
 
 (** * Non-vacuity: three threads, a trace without overlap that exercises the window with a
       counter of 2, reaches a state with live handles, a pending message and both paths taken. *)
